@@ -297,13 +297,183 @@ class AReport:
             else:
                 st['timeout_or_unknown'] += 1
 
-    def triage(self, ob, r, ctx=None, tol=1e-9, tries=40, scale_fn=None):
+    def confirm_pinned(self, ob, pt, ctx=None, timeout_s=20):
+        """solver confirmation of a numerically found counterexample: base inputs pinned to the
+        (rationalised) point, auxiliary variables left to the solver"""
+        ctx = ctx or S.C
+        s = z3.Solver()
+        s.set('timeout', int(timeout_s * 1000))
+        terms = [ob.neg] + list(ob.extra)
+        names = S.base_vars(terms + ([ob.expr] if ob.expr is not None else []), ctx)
+        s.add(S.cone(terms, ctx.cons + ctx.dom))
+        s.add(ob.extra)
+        s.add(ob.neg)
+        for n in names:
+            if n == 'deg' or n not in pt:
+                continue
+            fr = Fr(pt[n]).limit_denominator(10**6)
+            s.add(z3.Real(n) == S.rat(fr))
+        return str(s.check())
+
+    def verify_model(self, ob, pt, ctx=None):
+        """constructive `sat`: build an exact model of the RELAXED constraint system around the
+        point (base inputs rational, trig pairs Pythagorean rationals near the true values,
+        reciprocals/square roots exact algebraic numbers by definition) and let z3 evaluate every
+        constraint of the cone and the negated claim exactly. Returns True iff all hold."""
+        ctx = ctx or S.C
+        terms = [ob.neg] + list(ob.extra)
+        cons = S.cone(terms, ctx.cons + ctx.dom) + list(ob.extra) + [ob.neg]
+        evf = S.Evaluator(ctx, dict(pt))
+        vals = {}
+        pyth = {}
+
+        def subst(t):
+            names = S._vars_of(t)
+            pairs = [(z3.Real(n), value(n)) for n in names]
+            return z3.simplify(z3.substitute(t, *pairs)) if pairs else z3.simplify(t)
+
+        def value(n):
+            if n in vals:
+                return vals[n]
+            d = ctx.defs.get(n)
+            if d is None:
+                if n == 'deg':
+                    v = S.rat(Fr(math.pi / 180).limit_denominator(10**12))
+                elif n in pt:
+                    v = S.rat(Fr(pt[n]).limit_denominator(10**6))
+                else:
+                    raise KeyError(n)
+            elif d[0] in ('sin', 'cos'):
+                key = d[1].get_id()
+                if key not in pyth:
+                    th = evf.ev(d[1])
+                    th = math.remainder(th, 2 * math.pi)
+                    if abs(abs(th) - math.pi) < 1e-9:
+                        pyth[key] = (S.rat(0), S.rat(-1))
+                    else:
+                        t = Fr(math.tan(th / 2)).limit_denominator(10**4)
+                        pyth[key] = (S.rat(2 * t / (1 + t * t)), S.rat((1 - t * t) / (1 + t * t)))
+                v = pyth[key][0 if d[0] == 'sin' else 1]
+            elif d[0] == 'inv':
+                v = z3.simplify(1 / subst(d[1]))
+            elif d[0] == 'sqrt':
+                v = z3.simplify(subst(d[1]) ** z3.Q(1, 2))
+            elif d[0] == 'atan2':
+                v = S.rat(Fr(math.atan2(evf.ev(d[1]), evf.ev(d[2]))).limit_denominator(10**9))
+            elif d[0] in ('a2sin', 'a2cos'):
+                y0, x0 = subst(d[1]), subst(d[2])
+                v = z3.simplify((y0 if d[0] == 'a2sin' else x0) / (x0 * x0 + y0 * y0) ** z3.Q(1, 2))
+            elif d[0] == 'mod':
+                c0 = subst(d[1])
+                if not z3.is_rational_value(c0):
+                    raise KeyError('mod of non-rational')
+                f = S.val(c0)
+                v = S.rat(f - Fr(d[2]) * math.floor(f / Fr(d[2])))
+            elif d[0] == 'value':
+                raise KeyError('named value')
+            else:
+                raise KeyError(d[0])
+            vals[n] = v
+            return v
+        try:
+            for c in cons:
+                r = subst(c)
+                if not z3.is_true(r):
+                    if z3.is_false(r):
+                        if os.environ.get('PVF_DEBUG'):
+                            print('verify_model: false constraint', str(c)[:300])
+                        return False
+                    sol = z3.Solver()
+                    sol.set('timeout', 2000)
+                    sol.add(z3.Not(r))
+                    if sol.check() != z3.unsat:
+                        if os.environ.get('PVF_DEBUG'):
+                            print('verify_model: undecided constraint', str(c)[:300], '->', str(r)[:300])
+                        return False
+            return True
+        except (KeyError, z3.Z3Exception, ZeroDivisionError, ValueError, OverflowError) as e:
+            if os.environ.get('PVF_DEBUG'):
+                print('verify_model: exception', type(e).__name__, e)
+            return False
+
+    def refute(self, ob, r, ctx=None):
+        """turn a non-unsat answer into a concrete point of the domain where the residual,
+        evaluated with the true functions, is non-zero; `unknown` answers additionally need the
+        solver to confirm the pinned point. Returns (point, value) or None."""
+        if ob.expr is None:
+            return None
+        tr = self.triage(ob, r, ctx)
+        if tr is None:
+            return None
+        if r['result'] == 'sat':
+            return tr
+        # the solver gave up (`unknown`): try to have it confirm the pinned point; otherwise the
+        # point stands as a numeric counterexample of the symbolic residual (true functions),
+        # which is only ever reported after it reproduces on the compiled code
+        c = self.confirm_pinned(ob, tr[0], ctx, timeout_s=8)
+        st = self.run.cov.setdefault('unknown_resolved', {'pinned_sat': 0, 'numeric_only': 0})
+        st['pinned_sat' if c == 'sat' else 'numeric_only'] += 1
+        return tr
+
+    def finish(self, bad, prop, ctx=None):
+        """non-unsat answers -> true-function counterexample -> replay on the compiled code"""
+        run = self.run
+        specs, obs = [], []
+        for ob, r in bad:
+            tr = self.refute(ob, r, ctx)
+            if tr is None:
+                if r['result'] == 'sat':
+                    run.error('obligation "%s" is sat under the relaxation but no true-function counterexample was found - inconclusive' % ob.name)
+                continue
+            if r['result'] != 'sat':
+                # the unknown was resolved into a confirmed counterexample: no longer inconclusive
+                run.unknown[:] = [u for u in run.unknown if not u.startswith(ob.name + ' (')]
+            pt, v = tr
+            specs.append({'property': prop, 'kind': 'numeric', 'check': (ob.meta or {}).get('check'), 'point': pt,
+                          'obligation': ob.name, 'residual_symbolic': v, 'params': (ob.meta or {}).get('params')})
+            obs.append(ob)
+        if not specs:
+            return
+        res = common.run_replays(specs)
+        seen = set()
+        for spec, ob, r in zip(specs, obs, res):
+            if r.get('error'):
+                run.error('replay error for "%s": %s' % (ob.name, r['error']))
+            elif r.get('violated'):
+                key = str(r.get('detail'))
+                if key in seen:
+                    continue
+                seen.add(key)
+                spec = dict(spec)
+                spec['observed'] = r.get('detail')
+                path = common.write_replay(prop, spec)
+                run.violation('%s; real code: %s' % (ob.name, r.get('detail')), path)
+            else:
+                run.error('obligation "%s" fails symbolically (residual %.3g at %s) but the compiled code satisfies the numeric oracle - inconclusive' % (
+                    ob.name, spec['residual_symbolic'], spec['point']))
+
+    def canary(self, name, obls, timeout_s=8, ctx=None, families=None):
+        """a mutant must be refuted: some obligation gets a confirmed counterexample"""
+        if families:
+            obls = [o for o in obls if o.family in families]
+        bad = self.batch(obls, timeout_s=timeout_s, expect_sat=True, ctx=ctx)
+        hit = None
+        for ob, r in sorted(bad, key=lambda x: x[1]['result'] != 'sat'):
+            if ob.expr is None and r['result'] == 'sat':
+                hit = ob.name
+                break
+            if self.refute(ob, r, ctx):
+                hit = ob.name
+                break
+        self.run.canary(name, hit is not None, hit)
+
+    def triage(self, ob, r, ctx=None, tol=1e-9, tries=120, scale_fn=None):
         """a `sat` answer under the relaxation: look for a point of the domain where the residual,
         evaluated with the TRUE functions, is non-zero. Returns (point, value) or None."""
         ctx = ctx or S.C
         if ob.expr is None:
             return None
-        names = S.base_vars([ob.expr], ctx)
+        names = S.base_vars([ob.expr] + list(ob.extra), ctx)
         box = dict(self.box)
         box.update((ob.meta or {}).get('box', {}))
         tol = (ob.meta or {}).get('tol', tol)
@@ -324,8 +494,11 @@ class AReport:
                 pt.setdefault(k, v)
             pt.pop('deg', None)
             try:
-                v = residual_at(ob.expr, pt, ctx)
-            except (KeyError, ZeroDivisionError, ValueError, OverflowError):
+                ev = S.Evaluator(ctx, pt)
+                if not all(ev.holds(c) for c in ob.extra):
+                    continue
+                v = ev.ev(ob.expr)
+            except (KeyError, ZeroDivisionError, ValueError, OverflowError, NotImplementedError):
                 continue
             sc = scale_fn(pt) if scale_fn else 1.0
             if abs(v) > tol * sc:
